@@ -44,6 +44,46 @@ class ImplWorld:
             return {"unrooted": alpha.node_info(self.unrooted[sid])}
         return {"root": alpha.tree_json(self.trees[sid]), "target": list(step.get("target", []))}
 
+    def input_obj_and_json(self, inp):
+        """(python object to pass to save, model JSON of the input) for a non-Node input recipe"""
+        import numpy as np
+        kind = inp["kind"]
+        if kind == "array":
+            a = gen.build_arr(inp["rec"])
+            return a, {"kind": "array", "body": alpha.node_info(emdfile.Array(data=a, name="x"))["b"]}
+        if kind == "dict":
+            d = {k: gen.build_md_value(v) for k, v in inp["items"]}
+            return d, {"kind": "dict", "entry": alpha.metadata_obj(emdfile.Metadata(name="x", data=d))}
+        if kind == "metadata":
+            m = gen.build_metadata(inp["rec"])
+            return m, {"kind": "metadata", "name": m.name, "entry": alpha.metadata_obj(m)}
+        if kind == "other":
+            return inp.get("value", 5), {"kind": "other"}
+        if kind in ("list", "tuple"):
+            objs, js = [], []
+            for it in inp["items"]:
+                if "root" in it:
+                    objs.append(self.trees[it["root"]]); js.append({"root": alpha.tree_json(self.trees[it["root"]])})
+                elif "node" in it:
+                    tid, path = it["node"]
+                    o = self.index[tid][tuple(path)]
+                    objs.append(o)
+                    js.append({"rooted": {"id": sorted(self.trees).index(tid), "root": alpha.tree_json(self.trees[tid]),
+                                          "target": list(path)}})
+                elif "unrooted" in it:
+                    o = self.unrooted[it["unrooted"]]
+                    objs.append(o); js.append({"unrooted": alpha.node_info(o)})
+                elif "array" in it:
+                    a = gen.build_arr(it["array"])
+                    objs.append(a); js.append({"array": alpha.node_info(emdfile.Array(data=a, name="x"))["b"]})
+                elif "dict" in it:
+                    d = {k: gen.build_md_value(v) for k, v in it["dict"]}
+                    objs.append(d); js.append({"dict": alpha.metadata_obj(emdfile.Metadata(name="x", data=d))})
+                else:
+                    objs.append(it.get("other", 3.5)); js.append({"other": 1})
+            return (tuple(objs) if kind == "tuple" else objs), {"kind": "list", "items": js}
+        raise ValueError(kind)
+
     def close(self):
         emdfile.set_program(self.prog0)
         emdfile.set_author(self.user0)
@@ -59,17 +99,22 @@ def run_impl(case, collect_model_steps=True):
         for st in case["steps"]:
             do = st["do"]
             if do == "save":
-                m = {"do": "save", "path": st["path"], "src": w.src_json(st), "mode": st["mode"],
+                m = {"do": "save", "path": st["path"], "mode": st["mode"],
                      "tree": st.get("tree", True), "emdpath": st.get("emdpath")}
+                if "input" in st:
+                    obj, m["input"] = w.input_obj_and_json(st["input"])
+                else:
+                    obj, m["src"] = w.src_obj(st), w.src_json(st)
                 msteps.append(m)
                 try:
                     with common.quiet():
-                        emdfile.save(w.path(st["path"]), w.src_obj(st), mode=st["mode"], tree=st.get("tree", True),
+                        emdfile.save(w.path(st["path"]), obj, mode=st["mode"], tree=st.get("tree", True),
                                      emdpath=st.get("emdpath"))
                     obs.append({"ok": True})
                 except Exception as e:
                     obs.append(alpha.exc_kind(e))
-                    break
+                    if not case.get("continue_after_failure"):
+                        break
             elif do == "read":
                 msteps.append(dict(st))
                 try:
@@ -106,6 +151,29 @@ def run_impl(case, collect_model_steps=True):
                 msteps.append(dict(st))
                 with open(w.path(st["path"]), "wb") as f:
                     f.write(st["junk"].encode())
+                obs.append({"ok": True})
+            elif do == "puth5":
+                import h5py, numpy as np
+                p = w.path(st["path"])
+                with h5py.File(p, "w") as f:
+                    spec = st["spec"]
+                    if spec == "attrs_only":
+                        f.attrs["emd_group_type"] = "file"; f.attrs["version_major"] = 1; f.attrs["version_minor"] = 0
+                    elif spec == "wrong_version":
+                        f.attrs["emd_group_type"] = "file"; f.attrs["version_major"] = 2; f.attrs["version_minor"] = 0
+                        g = f.create_group("r"); g.attrs["emd_group_type"] = "root"
+                    elif spec == "no_roots":
+                        f.attrs["emd_group_type"] = "file"; f.attrs["version_major"] = 1; f.attrs["version_minor"] = 0
+                        g = f.create_group("r"); g.attrs["emd_group_type"] = "node"
+                    elif spec == "group":
+                        g = f.create_group("stuff"); g.create_dataset("x", data=np.arange(3))
+                    elif spec == "wrong_type":
+                        f.attrs["emd_group_type"] = "root"; f.attrs["version_major"] = 1; f.attrs["version_minor"] = 0
+                        g = f.create_group("r"); g.attrs["emd_group_type"] = "root"
+                    elif spec == "minimal_emd":
+                        f.attrs["emd_group_type"] = "file"; f.attrs["version_major"] = 1; f.attrs["version_minor"] = 0
+                        g = f.create_group("r"); g.attrs["emd_group_type"] = "root"; g.attrs["python_class"] = "Root"
+                msteps.append({"do": "put", "path": st["path"], "h5": alpha.raw_file(p, w.umap)["h5"]})
                 obs.append({"ok": True})
             elif do == "remove":
                 msteps.append(dict(st))
